@@ -64,6 +64,7 @@ ASSUMPTIONS = [
     "when the element is not there); stale objects whose id is still in Scenario._id_set are generated "
     "(bucket stale:id-still-in-pool)",
 ]
+EXTRA_MODULES = ["CRProps.T10"]      # translator tie: Gen.SrcC10 (regenerated from the repository every run) = hand model
 TRUSTED = ["harness/c10.py snapshot(): reads every id-valued attribute through the public accessors; the content of an element "
            "(geometry, types, markings, sign elements, light cycle) is compared through a SHA-1 digest of those attributes"]
 REQUIRED_BUCKETS = ["net_remove_lanelet", "net_remove_sign", "net_remove_light", "net_remove_inter", "scn_remove_lanelets",
